@@ -55,7 +55,8 @@ def main():
     nmax = run.budget(6, 7)
     run.scope = ("all leaf-labelled topologies for n <= %d leaves (exhaustive): unrank/rank round trip, all_trees complete, "
                  "duplicate-free and in rank order, ranks invariant under node relabelling; 9-leaf three-equal-subtree "
-                 "shapes sampled (count_topologies is not covered)" % nmax)
+                 "shapes sampled; round trips of large trees (x equal star subtrees of k leaves, 36-48 leaves; random binary trees "
+                 "on 14 leaves) (count_topologies is not covered)" % nmax)
     for n in range(1, nmax + 1):
         expected = all_topologies(range(n))
         seen = {}
@@ -151,6 +152,73 @@ def main():
             run.violation("distinct topologies have distinct ranks", {"n": n}, "collision", "injective")
         if run.violations:
             break
+    # large trees: x equal sibling subtrees (stars of k leaves) under one root, random labelling - the number of label
+    # assignments within the group exceeds 2^63 for the larger ones; also random binary trees on 14 leaves
+    import sys
+    sys.setrecursionlimit(10000)
+
+    def build(n, clades):
+        """tables of a tree given as nested tuples of leaf labels"""
+        t = tskit.TableCollection(1.0)
+        for _lab in range(n):
+            t.nodes.add_row(flags=1, time=0)
+
+        def add(c):
+            if not isinstance(c, tuple):
+                return c, 0.0
+            kids = [add(x) for x in c]
+            tm = max(h for _, h in kids) + 1.0
+            u = t.nodes.add_row(time=tm)
+            for v, _ in kids:
+                t.edges.add_row(0, 1, u, v)
+            return u, tm
+        add(clades)
+        t.sort()
+        return t.tree_sequence().first()
+    big = [(18, 2), (5, 7), (4, 10), (3, 16), (6, 6), (10, 3), (12, 3), (2, 20)]
+    for (x, k_) in big:
+        n = x * k_
+        for rep in range(run.budget(3, 20)):
+            perm = list(range(n))
+            rng.shuffle(perm)
+            clades = tuple(tuple(perm[a * k_ + b] for b in range(k_)) for a in range(x))
+            tree = build(n, clades)
+            c = canon(tree, tree.root)
+            run.case(("big", x, k_))
+            try:
+                r = tree.rank()
+                back = tskit.Tree.unrank(n, r)
+                ok = canon(back, back.root) == c and tuple(back.rank()) == tuple(r)
+                obs = repr(canon(back, back.root))[:300]
+            except Exception as e:
+                ok, obs = False, "%s: %s" % (type(e).__name__, e)
+            if not ok:
+                run.violation("unrank(n, rank(t)) == t for large trees with many equal sibling subtrees",
+                              {"n": n, "equal_subtrees": x, "leaves_each": k_, "tree": repr(c)[:400]}, obs, repr(c)[:300])
+                break
+        if run.violations:
+            break
+    for rep in range(run.budget(10, 100)):
+        n = 14
+        items = list(range(n))
+        rng.shuffle(items)
+        while len(items) > 1:
+            a = items.pop(rng.randrange(len(items)))
+            b = items.pop(rng.randrange(len(items)))
+            items.append((a, b))
+        tree = build(n, items[0])
+        c = canon(tree, tree.root)
+        run.case(("bin14", rep))
+        try:
+            r = tree.rank()
+            back = tskit.Tree.unrank(n, r)
+            ok = canon(back, back.root) == c
+            obs = repr(canon(back, back.root))[:300]
+        except Exception as e:
+            ok, obs = False, "%s: %s" % (type(e).__name__, e)
+        if not ok:
+            run.violation("unrank(n, rank(t)) == t for random binary trees on 14 leaves", {"tree": repr(c)[:400]}, obs, repr(c)[:300])
+            break
     # random shape ranks for 10..13 leaves (first labelling): rank(unrank(r)) == r and distinct shapes
     for n in (10, 11, 12, 13):
         total = comb.num_shapes(n)
@@ -176,4 +244,4 @@ def main():
 
 
 if __name__ == "__main__":
-    main()
+    O.run_main(main)
